@@ -33,6 +33,8 @@ func run(prop string) {
 		runC14()
 	case "C06":
 		runC06()
+	case "C03", "C04", "C07", "C16", "C17":
+		runTunnels(prop)
 	default:
 		panic("W-mesh does not decide " + prop)
 	}
